@@ -44,6 +44,7 @@ excl(int n)
 // ---- tolerances (relative to the magnitude = sum of absolute values of the terms of the compared quantity) -------------
 // calibrated over VERIF_SEED=1..10 quick runs, see the maxima in evidence/C09.json; observed maxima in the comments
 const double TOL = 1e-5;        // STIR vs reference, all pairwise clauses (observed max ~6e-7)
+const double TOL_HV = 2e-5;     // Hessian-times-input: STIR sums up to 125 products in float (observed max ~1.1e-6)
 const double TOL_PLS = 1e-4;    // PLS is evaluated in float with a cancellation |g|^2 - <g,xi>^2 (observed max ~4e-6)
 const double TOL_ANCHOR = 1e-6; // reference derivative vs long double central difference (observed max ~2e-9)
 const double TOL_REL = 2e-6;    // relations on STIR alone that only re-order float operations (observed max ~2e-7)
@@ -542,7 +543,7 @@ char_length(const Cfg& k, const Vec& x)
 
 template <class RefD>
 std::string
-anchor_gradient(const RefD& ref, const Vec& x, const Vec& grad, const Vec& gmag, const Vec& dir, double len)
+anchor_gradient(const RefD& ref, const Vec& x, const Vec& grad, const Vec& gmag, const Vec& dir, double len, double floor_abs)
 {
   typedef long double L;
   auto rl = ref.template as<L>();
@@ -560,8 +561,10 @@ anchor_gradient(const RefD& ref, const Vec& x, const Vec& grad, const Vec& gmag,
       an += grad[i] * dir[i];
       scale += gmag[i] * std::fabs(dir[i]);
     }
-  if (scale == 0.)
-    scale = 1e-30;
+  // round-off of the difference quotient: ~ LDBL_EPSILON * |value| / h = 1e-13 |value| / len; keep it 3 orders below the tolerance
+  L vm = 0;
+  rl.value(xp, &vm);
+  scale += 1e-4 * double(vm) / len + floor_abs + 1e-30;
   const double e = std::fabs(double(fd) - an) / scale;
   stats().maxi("anchor: reference gradient vs long double central difference of reference value", e);
   if (!(e <= TOL_ANCHOR))
@@ -576,7 +579,7 @@ anchor_hessian(const RefD& ref, const Vec& x, const Vec& hv, const Vec& hmag, co
   typedef long double L;
   auto rl = ref.template as<L>();
   const double vm = std::max(vmax(v), 1e-30);
-  const L h = L(1e-8) * L(len) / L(vm);
+  const L h = L(1e-9) * L(len) / L(vm);
   std::vector<L> xp = conv<L>(x), xm = conv<L>(x), gp, gm;
   for (std::size_t i = 0; i < x.size(); ++i)
     {
@@ -586,11 +589,17 @@ anchor_hessian(const RefD& ref, const Vec& x, const Vec& hv, const Vec& hmag, co
   rl.gradient(xp, gp);
   rl.gradient(xm, gm);
   const double hm = std::max(vmax(hmag), 1e-30);
+  // round-off of the difference quotient: ~ LDBL_EPSILON * |gradient terms| / h = 1e-11 |gradient terms| vm / len
+  std::vector<L> gmagL;
+  rl.gradient(xp, gp, &gmagL);
+  double gscale = 0;
+  for (L e : gmagL)
+    gscale = std::max(gscale, double(e));
   double worst = 0;
   for (std::size_t i = 0; i < x.size(); ++i)
     {
       const double fd = double((gp[i] - gm[i]) / (2 * h));
-      worst = std::max(worst, std::fabs(fd - hv[i]) / (hmag[i] + 1e-3 * hm));
+      worst = std::max(worst, std::fabs(fd - hv[i]) / (hmag[i] + 1e-3 * hm + 1e-2 * gscale * vm / len));
     }
   (void)g;
   stats().maxi("anchor: reference Hessian.v vs long double central difference of reference gradient", worst);
@@ -789,7 +798,13 @@ check_pairwise(const Cfg& k)
   {
     const double len = char_length(k, x);
     const Vec d = make_direction(k.dseed ^ 0x5bd1e995u, std::size_t(N), 1.);
-    C09_TRY(anchor_gradient(ref, x, gref, gmag, d, len));
+    // truncation error of the central difference ~ h^2 x third derivative ~ 1e-12 len d'|H|d: floor of the scale = 1e-3 len d'|H|d
+    Vec t, tm;
+    ref.hess_times(x, d, t, &tm);
+    double fl = 0;
+    for (int i = 0; i < N; ++i)
+      fl += tm[std::size_t(i)] * std::fabs(d[std::size_t(i)]);
+    C09_TRY(anchor_gradient(ref, x, gref, gmag, d, len, 1e-3 * len * fl));
     C09_TRY(anchor_hessian(ref, x, hvref, hvmag, v, len, g));
   }
 
@@ -821,16 +836,14 @@ check_pairwise(const Cfg& k)
   // ---- all Hessian rows ----------------------------------------------------------------------------------------------------
   std::vector<Vec> Hs(static_cast<std::size_t>(N));
   {
-    Vec rref, rmag(static_cast<std::size_t>(N));
+    Vec rref, rmag;
     for (int z = 0; z < g.nz; ++z)
       for (int y = 0; y < g.ny; ++y)
         for (int xx = 0; xx < g.nx; ++xx)
           {
             const int j = g.idx(z, y, xx);
             Hs[std::size_t(j)] = stir_row(P, g, *xim, z, y, xx);
-            ref.hess_row(x, z, y, xx, rref);
-            for (int i = 0; i < N; ++i)
-              rmag[std::size_t(i)] = std::fabs(rref[std::size_t(i)]);
+            ref.hess_row(x, z, y, xx, rref, &rmag);
             const std::string msg = cmp_vec("Hessian row " + kn, Hs[std::size_t(j)], rref, rmag, TOL, g);
             if (!msg.empty())
               return Result::fail(cat("row of voxel (", g.oz + z, ",", g.oy + y, ",", g.ox + xx, "): ", msg));
@@ -847,7 +860,7 @@ check_pairwise(const Cfg& k)
     Vec mag(hvmag);
     for (int i = 0; i < N; ++i)
       mag[std::size_t(i)] += 0.05 * (std::fabs(prefill[std::size_t(i)]) + std::fabs(hvref[std::size_t(i)])); // float rounding of output += result
-    C09_TRY(cmp_vec("Hessian-times-input " + kn, hvstir, hvref, mag, TOL, g));
+    C09_TRY(cmp_vec("Hessian-times-input " + kn, hvstir, hvref, mag, TOL_HV, g));
     // the same from STIR's own rows
     Vec hsv(static_cast<std::size_t>(N), 0.), hsm(static_cast<std::size_t>(N), 0.);
     for (int i = 0; i < N; ++i)
@@ -858,8 +871,8 @@ check_pairwise(const Cfg& k)
           hsm[std::size_t(i)] += std::fabs(t);
         }
     for (int i = 0; i < N; ++i)
-      hsm[std::size_t(i)] += 0.05 * (std::fabs(prefill[std::size_t(i)]) + std::fabs(hvref[std::size_t(i)]));
-    C09_TRY(cmp_vec("Hessian-times-input vs sum of STIR rows " + kn, hvstir, hsv, hsm, TOL, g));
+      hsm[std::size_t(i)] = std::max(hsm[std::size_t(i)], hvmag[std::size_t(i)]) + 0.05 * (std::fabs(prefill[std::size_t(i)]) + std::fabs(hvref[std::size_t(i)]));
+    C09_TRY(cmp_vec("Hessian-times-input vs sum of STIR rows " + kn, hvstir, hsv, hsm, TOL_HV, g));
   }
 
   // ---- row j == H e_j -------------------------------------------------------------------------------------------------------
@@ -1144,7 +1157,7 @@ check_pls(const Cfg& k)
   ref.gradient(x, gref, &gmag);
   {
     const Vec d = make_direction(k.dseed ^ 0x5bd1e995u, std::size_t(N), 1.);
-    C09_TRY(anchor_gradient(ref, x, gref, gmag, d, char_length(k, x)));
+    C09_TRY(anchor_gradient(ref, x, gref, gmag, d, char_length(k, x), 0.));
   }
   VF_CHECK(P.is_convex(), "PLS does not declare itself convex");
 
